@@ -5,7 +5,7 @@ mkdir -p target
 export CARGO_NET_OFFLINE=true
 fail=0
 pids=""
-for spec in "default:" "lb+tpp+std:large-blobs,third-party-payment,std" "gif+tpp+std:get-info-full,third-party-payment,std" "gif+lb+std+log:get-info-full,large-blobs,std,log-all" "all:get-info-full,large-blobs,third-party-payment" "all+std:get-info-full,large-blobs,third-party-payment,std" "all+arb:get-info-full,large-blobs,third-party-payment,std,arbitrary" "arb:std,arbitrary"; do
+for spec in "default:" "lb+tpp+std+log:large-blobs,third-party-payment,std,log-all" "gif+tpp+std+log:get-info-full,third-party-payment,std,log-all" "gif+lb+std+log:get-info-full,large-blobs,std,log-all" "all+log:get-info-full,large-blobs,third-party-payment,log-all" "arb+log:std,arbitrary,log-all" "all:get-info-full,large-blobs,third-party-payment" "all+std:get-info-full,large-blobs,third-party-payment,std" "all+arb:get-info-full,large-blobs,third-party-payment,std,arbitrary" "arb:std,arbitrary"; do
   tag="${spec%%:*}"; feats="${spec#*:}"
   if [ -n "$feats" ]; then
     CARGO_TARGET_DIR="target/$tag" cargo build -j 6 --release --offline --quiet --manifest-path sim/Cargo.toml --features "$feats" >"target/setup-$tag.log" 2>&1 &
